@@ -114,7 +114,11 @@ impl Compile for Constructor {
 impl WalkForType for Constructor {
     fn type_from_node(input: &Node) -> Result<Ident> {
         let parameters = input.children().next().unwrap();
-        let parameters = Parser::function_parameters(parameters, false, true, true)?;
+        let parameters = {
+            // see MemberFunction::type_from_node
+            let _scope_handle = input.user_data().push_function(ScopeReturnStatus::Void);
+            Parser::function_parameters(parameters, false, true, true)?
+        };
 
         let function_type =
             FunctionType::new(Rc::new(parameters), ScopeReturnStatus::Void, false, true);
